@@ -40,13 +40,14 @@ let run_fini old with_ops =
   let ns = nexti () in
   let t = ref T.empty and bad = ref false in
   for _ = 1 to ns do
-    let isset = if with_ops then (let o = next () in o.[0] = 's') else true in
-    if isset then begin
+    let opc = if with_ops then (next ()).[0] else 's' in
+    if opc = 's' then begin
       let k = zs (next ()) in let v = zs (next ()) in
       if not !bad then (match T.set (cfg ()) kgf !t k v with Some (t', _) -> t := t' | None -> bad := true)
     end else begin
       let k = nexti () in
-      if !tagged && k >= 0 && k < 1024 then kg.(k) <- (kg.(k) + 1) land 0xFFFFFFFF
+      let n = if opc = 'r' then nexti () else 1 in
+      if !tagged && k >= 0 && k < 1024 then kg.(k) <- (kg.(k) + n) land 0xFFFFFFFF
     end
   done;
   (match (if !bad then None else D.fini old (cfg ()) dt kgf !t) with
@@ -69,6 +70,7 @@ let () =
      | "variant" ->
         tagged := (nexti () <> 0); let l = nexti () in
         out (Printf.sprintf "variant %d %d" (if !tagged then 1 else 0) l); flush_line ()
+     | "widths" -> out (if !tagged then "widths 4 4" else "widths 0 0"); flush_line ()
      | "consts" -> out "consts"; Stdlib.List.iter (fun z -> out (" " ^ sz z)) (T.consts (cfg ())); flush_line ()
      | "fini" -> run_fini false false
      | "finiold" -> run_fini true false
